@@ -357,7 +357,7 @@ func (f *frame) execInstr(b *ssa.BasicBlock, instr ssa.Instruction, st *State) {
 	switch in := instr.(type) {
 	case *ssa.DebugRef:
 		if id, ok := in.Expr.(*ast.Ident); ok {
-			if _, isVar := in.Object().(*types.Var); isVar {
+			if ov, isVar := in.Object().(*types.Var); isVar && !ov.IsField() { // go/ssa also emits a DebugRef for the Sel of x.f: a field is not a local
 				defer func() { recover() }() // names are best effort
 				v := f.val(in.X)
 				if in.IsAddr {
@@ -461,8 +461,9 @@ func (f *frame) execInstr(b *ssa.BasicBlock, instr ssa.Instruction, st *State) {
 	case *ssa.MapUpdate:
 		m := f.val(in.Map)
 		c.oblige(st, f.path, "safety:nilmap", fmt.Sprintf("(not (= %s nil))", m.T), "assignment to entry in nil map", in.Pos())
-		dom, val, _, _ := g.TE.MapHeaps(in.Map.Type())
+		dom, val, mks, _ := g.TE.MapHeaps(in.Map.Type())
 		k, v := f.val(in.Key).T, f.val(in.Value).T
+		c.cardStep(st, mks, fmt.Sprintf("(select %s %s)", st.Heap(dom), m.T), k, true)
 		f.storeHeap(st, dom, m.T, fmt.Sprintf("(store (select %s %s) %s true)", st.Heap(dom), m.T, k))
 		f.storeHeap(st, val, m.T, fmt.Sprintf("(store (select %s %s) %s %s)", st.Heap(val), m.T, k, v))
 	case *ssa.Lookup:
